@@ -120,6 +120,41 @@ def check_structure(layers, nodes, stub_width):
     return None
 
 
+def capacity_clauses(labels, layers, o):
+    """The statement's last sentence for one layering. o: layerWidth (None = no bound), density, nodeSpacing, algorithm.
+    -> (key, reason, ambiguous)"""
+    nl = len(layers)
+    amb = False
+    if o["algorithm"] != "none":
+        sp = o["nodeSpacing"]
+        req = sum(w for _, w in labels) + sp * (len(labels) - 1)
+        if o["layerWidth"] is None:
+            if nl != 1:
+                return "C04:split-without-bound", "%d layers although no layer width is configured" % nl, False
+        else:
+            budget = o["density"] * o["layerWidth"]
+            exact = Fraction(o["density"]) * Fraction(o["layerWidth"])
+            reqx = sum(Fraction(w) for _, w in labels) + Fraction(sp) * (len(labels) - 1)
+            dyadic = all(Fraction(w).denominator <= 1024 for _, w in labels) and Fraction(sp).denominator <= 1024
+            if abs(req - budget) < 1e-9 and not (Fraction(budget) == exact and reqx == exact and dyadic):
+                # the float product is not the exact budget, or the widths are floats whose sum is not exact in every
+                # order of summation (3.3 + 0.5 + 3): either answer is defensible
+                amb = True
+            elif req <= budget:
+                if nl != 1:
+                    return ("C04:split-though-fits", "labels need %r <= budget %r but got %d layers" % (req, budget, nl), False)
+            elif o["algorithm"] == "overlap" and len(labels) >= 3:
+                if nl < 2:
+                    return "C04:not-split", "labels need %r > budget %r but stayed in one layer" % (req, budget), False
+                for li, l in enumerate(layers):
+                    nlab = sum(1 for x in l if not x.isStub())
+                    wsum = sum(x.width for x in l) + sp * (len(l) - 1)
+                    if nlab > 2 and wsum > budget + 1e-9:
+                        return ("C04:over-budget", "layer %d holds %d labels and needs %r > budget %r"
+                                % (li, nlab, wsum, budget), False)
+    return None, None, amb
+
+
 def check_distribution(labels, o):
     """One real distribution + structural invariant.  -> (key, reason, nlayers, ambiguous)"""
     from labella.distributor import Distributor
@@ -136,32 +171,9 @@ def check_distribution(labels, o):
     bad = check_structure(layers, nodes, o["stubWidth"])
     if bad:
         return bad[0], bad[1], nl, False
-    amb = False
-    if o["algorithm"] != "none":
-        sp = o["nodeSpacing"]
-        req = sum(w for _, w in labels) + sp * (len(labels) - 1)
-        if o["layerWidth"] is None:
-            if nl != 1:
-                return "C04:split-without-bound", "%d layers although no layer width is configured" % nl, nl, False
-        else:
-            budget = o["density"] * o["layerWidth"]
-            exact = Fraction(o["density"]) * Fraction(o["layerWidth"])
-            reqx = sum(Fraction(w) for _, w in labels) + Fraction(sp) * (len(labels) - 1)
-            if abs(req - budget) < 1e-9 and not (Fraction(budget) == exact and reqx == exact):
-                amb = True  # the float product is not the exact budget: either answer is defensible
-            elif req <= budget:
-                if nl != 1:
-                    return ("C04:split-though-fits", "labels need %r <= budget %r but got %d layers" % (req, budget, nl),
-                            nl, False)
-            elif o["algorithm"] == "overlap" and len(labels) >= 3:
-                if nl < 2:
-                    return "C04:not-split", "labels need %r > budget %r but stayed in one layer" % (req, budget), nl, False
-                for li, l in enumerate(layers):
-                    nlab = sum(1 for x in l if not x.isStub())
-                    wsum = sum(x.width for x in l) + sp * (len(l) - 1)
-                    if nlab > 2 and wsum > budget + 1e-9:
-                        return ("C04:over-budget", "layer %d holds %d labels and needs %r > budget %r"
-                                % (li, nlab, wsum, budget), nl, False)
+    key, reason, amb = capacity_clauses(labels, layers, o)
+    if key:
+        return key, reason, nl, False
     return None, None, nl, amb
 
 
